@@ -43,13 +43,17 @@ structure Eff where
   released : Nat := 0
   done : Nat := 0
   closed : Nat := 0
+  /-- `out.close()` calls (the batch channel), and the number of errors counted when the first of them ran -/
+  chanClosed : Nat := 0
+  errsAtClose : Option Nat := none
   /-- a statement without a meaning here was executed, or one that needs an open file ran without one -/
   bad : Bool := false
   deriving Repr
 
 /-- The statements a reader goroutine / the `OnError` callback may execute, recognised by their text. -/
 inductive RStmt
-  | declFile | openFile | logOpenErr | incErr | start | sync | closeFile | release | stop | wgDone | logReadErr | unknown
+  | declFile | openFile | logOpenErr | incErr | start | sync | closeFile | release | stop | wgDone | logReadErr
+  | startStdin | syncFlush | closeReader | closeChan | unknown
   deriving Repr, DecidableEq
 
 def classify (s : String) : RStmt :=
@@ -65,6 +69,10 @@ def classify (s : String) : RStmt :=
   else if s = "do:out.stopFileReading(goFilename)" then .stop
   else if s = "do:wg.Done()" then .wgDone
   else if s = "do:logger.Printf(\"Errorreading%s:%v\",sourceName,e)" then .logReadErr
+  else if s = "do:out.startFileReading(sourceName)" then .startStdin
+  else if s = "do:out.syncReaderToBatcherWithTimeFlush(sourceName,reader,batchSize,AutoFlushTimeout)" then .syncFlush
+  else if s = "do:reader.Close()" then .closeReader
+  else if s = "do:out.close()" then .closeChan
   else .unknown
 
 /-- The body of the `OnError` callback of `syncReaderToBatcher`, run once. -/
@@ -97,11 +105,23 @@ def interpStmt (onError : List RStmt) (gunzip : Bool) (name : Path) (f : FileOra
   | .release => { e with released := e.released + 1 }
   | .stop => { e with stopped := e.stopped + 1 }
   | .wgDone => { e with done := e.done + 1 }
-  | .logReadErr => { e with bad := true }
-  | .unknown => { e with bad := true }
+  | _ => { e with bad := true }
 
 def interpReader (onError : List String) (gunzip : Bool) (name : Path) (f : FileOracle) (ops : List String) : Eff :=
   (ops.map classify).foldl (interpStmt (onError.map classify) gunzip name f) {}
+
+/-- One statement of the goroutine of `OpenReaderToChan(sourceName, reader, …)`; `data`/`fails` = what the reader yields. -/
+def interpStdinStmt (onError : List RStmt) (name : Bytes) (data : Bytes) (fails : Bool) (e : Eff) : RStmt → Eff
+  | .startStdin => { e with started := e.started + 1 }
+  | .syncFlush =>
+    let e := { e with lines := e.lines ++ C04.splitLines data }
+    if fails then interpOnError name onError e else e
+  | .closeChan => { e with chanClosed := e.chanClosed + 1, errsAtClose := if e.chanClosed = 0 then some e.errs else e.errsAtClose }
+  | .closeReader => { e with closed := e.closed + 1 }
+  | _ => { e with bad := true }
+
+def interpStdin (onError : List String) (name : Bytes) (data : Bytes) (fails : Bool) (ops : List String) : Eff :=
+  (ops.map classify).foldl (interpStdinStmt (onError.map classify) name data fails) {}
 
 /-- the condition of the reader body: `err != nil` after `openFileToReader` -/
 def readerEnv (f : FileOracle) (c : String) : Bool := c == "err!=nil" && !f.canOpen
